@@ -193,3 +193,103 @@ def c02_two_events(f1: int, f2: int, n1: int, n2: int, two: bool, b1: int, b2: i
     forms = [f1, f2] if two else [f1]
     names = [n1, n2] if two else [n1]
     return _scenario(q, shape, forms, names, [b1, b2, b3])
+
+
+def _sub_scenario(ops):
+    """ops: list of op codes.  0/1: add listener A/B to CIRC, 2/3: remove A/B from CIRC, 4: add listener C to STREAM,
+    5: remove C from STREAM, 6: Tor answers the oldest unanswered command (250 OK), 7: Tor emits a CIRC event."""
+    w = World()
+    w.p, w.t = fakes.new_protocol()
+    with api.no_tracing():
+        w.p._set_valid_events('CIRC STREAM HS_DESC ORCONN')
+    logs = {'A': [], 'B': [], 'C': []}
+    cbs = {'A': logs['A'].append, 'B': logs['B'].append, 'C': logs['C'].append}
+    reg = {'A': False, 'B': False, 'C': False}
+    answered = 0
+    want_events = {'A': 0, 'B': 0, 'C': 0}
+    tor_subscribed = set()       # what Tor believes (last SETEVENTS it has acknowledged)
+    try:
+        for op in ops:
+            if op in (0, 1):
+                k = 'AB'[op]
+                if reg[k]:
+                    continue
+                w.p.add_event_listener('CIRC', cbs[k])
+                reg[k] = True
+            elif op in (2, 3):
+                k = 'AB'[op - 2]
+                if not reg[k]:
+                    continue
+                w.p.remove_event_listener('CIRC', cbs[k])
+                reg[k] = False
+            elif op == 4:
+                if reg['C']:
+                    continue
+                w.p.add_event_listener('STREAM', cbs['C'])
+                reg['C'] = True
+            elif op == 5:
+                if not reg['C']:
+                    continue
+                w.p.remove_event_listener('STREAM', cbs['C'])
+                reg['C'] = False
+            elif op == 6:
+                lines = b''.join(w.t.chunks).split(b'\r\n')[:-1]
+                if answered < len(lines):
+                    ln = lines[answered].decode('ascii')
+                    answered += 1
+                    if not ln.startswith('SETEVENTS'):
+                        return R('unexpected-command', '%r', ln)
+                    tor_subscribed = set(ln.split()[1:])
+                    w.p.lineReceived(b'250 OK')
+            else:
+                # Tor only emits events it was asked for
+                if 'CIRC' in tor_subscribed:
+                    for k in 'AB':
+                        if reg[k]:
+                            want_events[k] += 1
+                    w.p.lineReceived(b'650 CIRC 1 LAUNCHED')
+        # quiesce: Tor answers everything still outstanding
+        while True:
+            lines = b''.join(w.t.chunks).split(b'\r\n')[:-1]
+            if answered >= len(lines):
+                break
+            ln = lines[answered].decode('ascii')
+            answered += 1
+            if not ln.startswith('SETEVENTS'):
+                return R('unexpected-command', '%r', ln)
+            tor_subscribed = set(ln.split()[1:])
+            w.p.lineReceived(b'250 OK')
+    except Exception as e:
+        return R('exception', '%s: %s', type(e).__name__, e)
+    names = set()
+    if reg['A'] or reg['B']:
+        names.add('CIRC')
+    if reg['C']:
+        names.add('STREAM')
+    if tor_subscribed != names:
+        return R('subscription-Tor-was-given-differs-from-names-with-listeners', 'tor has %r, listeners on %r (ops %r)',
+                 sorted(tor_subscribed), sorted(names), ops)
+    for k in 'ABC':
+        if len(logs[k]) != want_events[k]:
+            return R('listener-event-count-wrong', 'listener %s got %d want %d (ops %r)', k, len(logs[k]), want_events[k], ops)
+    reached()
+    return ''
+
+
+_SUBP = [{'o1': a, 'o2': b} for a in (0, 4) for b in range(8)]
+
+
+@cond(quick=dict(parts=_SUBP, budget=120))
+def c02_subscription(o1: int, o2: int, o3: int, o4: int, o5: int) -> str:
+    """5 subscribe / unsubscribe / acknowledge / event operations in any order (acknowledgements may lag)"""
+    ops = [o1, o2] + [api.pick(o, 0, 7) for o in (o3, o4, o5)]
+    with api.no_tracing():       # every choice is concrete by now
+        return _sub_scenario(ops)
+
+
+@cond(thorough=dict(parts=_SUBP, budget=900))
+def c02_subscription7(o1: int, o2: int, o3: int, o4: int, o5: int, o6: int, o7: int) -> str:
+    """7 operations"""
+    ops = [o1, o2] + [api.pick(o, 0, 7) for o in (o3, o4, o5, o6, o7)]
+    with api.no_tracing():
+        return _sub_scenario(ops)
